@@ -587,13 +587,62 @@ def run_case(st: Stats, case, bound):
 def work(chunk):
     st = Stats()
     for case, bound in chunk:
-        run_case(st, case, bound)
+        if case[0] == "commonmember":
+            run_common_member(st, case)
+        else:
+            run_case(st, case, bound)
     return st
+
+
+# ---- members of COMMON blocks: variables of the scope holding the statement --------------------------------------------
+def run_common_member(st: Stats, case):
+    """`common /blk/ xq` in a procedure: xq is that procedure's variable - declared there (before or after the statement,
+    with the bounds in either place) or implicitly typed - never the equally named variable of the host module."""
+    _, in_module, local, bounds = case
+    L = ["module m"] + (["  integer :: xq"] if in_module else []) + ["contains", "  subroutine s()"]
+    decl = {"none": [], "before": ["    double precision xq" + ("(4)" if bounds == "decl" else "")], "after": ["    double precision xq" + ("(4)" if bounds == "decl" else "")]}[local]
+    com = ["    common /blk/ xq" + ("(4)" if bounds == "common" else "") + ", kount"]
+    L += (decl + com if local != "after" else com + decl) + ["  end subroutine s", "end module m"]
+    src = "\n".join(L) + "\n"
+    r = fordrun.build_fast({"src/m.f90": src}, DISPLAY_ALL)
+    st.evaluations += 1
+    st.transitions += 1
+    stratum = "common-member"
+    feats = dict(space="common-member", host="module" if in_module else "none", deviations=f"{local}/{bounds}", n_dev=0)
+    inp = dict(case=list(case), choices=[], source=src)
+    st.nontrivial.add(core.digest(list(case)))
+    if r.error is not None or not r.project or not r.project.modules or "Error parsing" in r.log:
+        st.violation("ford-failed-on-wellformed-input", stratum, feats, inp, (repr(r.error) + " " + r.log[-300:]).strip(), "parses")
+        st.stratum(stratum, 1)
+        return
+    m = r.project.modules[0]
+    sub = m.subroutines[0]
+    cb = sub.common[0] if getattr(sub, "common", None) else None
+    got = [(getattr(v, "name", str(v)).lower(), (getattr(v, "vartype", "") or "").lower(), canon.nb(getattr(v, "dimension", "") or ""),
+            type(getattr(v, "parent", None)).__name__.replace("Fortran", "").lower()) for v in (cb.variables if cb else [])]
+    got_mod = sorted((v.name.lower(), v.vartype) for v in m.variables)
+    want = [("xq", "double precision" if local != "none" else "real", "(4)" if bounds != "none" else "", "subroutine" if local != "none" else "common"),
+            ("kount", "integer", "", "common")]
+    want_mod = [("xq", "integer")] if in_module else []
+    st.states.add(core.digest([case, got, got_mod]))
+    if got != want or got_mod != want_mod:
+        st.violation("field", stratum, dict(feats, diff="common-member", entity_kind="variable", entity="xq", role="variable"), inp,
+                     dict(members=got, module_variables=got_mod), dict(members=want, module_variables=want_mod))
+        st.stratum(stratum, 1)
+    else:
+        st.stratum(stratum, 0)
+
+
+def gen_common_members(tier):
+    for in_module in (False, True):
+        for local in ("none", "before", "after"):
+            for bounds in ("none", "common") + (("decl",) if local != "none" else ()):
+                yield ("commonmember", in_module, local, bounds)
 
 
 def all_cases(tier):
     b = 1 if tier == "quick" else 2
-    return [(c, b) for c in itertools.chain(gen_atoms(tier), gen_twolit(tier))] + gen_shapes(tier) + [(c, 1) for c in gen_lookalikes(tier)] + gen_files(tier) + list(gen_inc(tier))
+    return [(c, b) for c in itertools.chain(gen_atoms(tier), gen_twolit(tier))] + gen_shapes(tier) + [(c, 1) for c in gen_lookalikes(tier)] + gen_files(tier) + list(gen_inc(tier)) + [(c, 0) for c in gen_common_members(tier)]
 
 
 def replay(path):
@@ -608,6 +657,12 @@ def replay(path):
     print(r.log[-500:], r.error)
     case = rec["input"]["case"]
     case = tuple(tuple(x) if isinstance(x, list) else x for x in case)
+    if case[0] == "commonmember":
+        st = Stats()
+        run_common_member(st, case)
+        for v in st.violations:
+            print("REPRODUCED", v["observed"], "expected", v["expected"])
+        return 1 if st.violations else 0
     sf = BUILDERS[case[0]](case)
     from mc.explore import Chooser
 
